@@ -143,18 +143,22 @@ theorem source_single_blocks :
 
 /-- the block SEQUENCES of the multi-block operations are the synchronisation skeletons of the source (lock sections,
 loops and lock-taking calls in source order, regenerated by harness/gen_ldm_shape.py): e.g. the attendance pass takes
-its subscription snapshot first and reads the consumer registry INSIDE the loop, once per subscription; `search` runs
+its subscription snapshot first and reads the consumer registry INSIDE the loop, once per subscription, and
+`attend_subscription` re-tests in a section of its own that the subscription is still stored before the notification
+(fix C14-removed-subscription-not-notified); `search` runs
 inside one database-lock section; LDMMaintenanceThread wraps every maintenance-level writer in its lock -/
 theorem source_skeletons :
     Generated.LdmShape.skeleton_LDMService_attend_subscriptions =
-      ["with _lock", "end", "loop", "call get_data_consumer_its_aid", "call search_data", "call order_search_results",
-       "call process_notifications", "endloop", "loop", "call remove_subscription", "endloop"] ∧
+      ["with _lock", "end", "loop", "call get_data_consumer_its_aid", "call attend_subscription", "endloop",
+       "loop", "call remove_subscription", "endloop"] ∧
+    Generated.LdmShape.skeleton_LDMService_attend_subscription =
+      ["call search_data", "call order_search_results", "with _lock", "end", "call process_notifications"] ∧
     Generated.LdmShape.skeleton_InterfaceLDM3_update_provider_data =
       ["call exists", "call get_provider_data", "call update_provider_data"] ∧
     Generated.LdmShape.skeleton_LDMMaintenance_update_provider_data = ["call get", "call update"] ∧
     Generated.LdmShape.skeleton_InterfaceLDM3_delete_provider_data = ["call exists", "call del_provider_data_by_id"] ∧
     (Generated.Locks.calls .DictionaryDataBase_search).all (fun c => c.1 == [.DictionaryDataBase__lock]) = true :=
-  ⟨skeletons.1, skeletons.2.2.2.2.2.2.1, skeletons.2.2.2.2.2.2.2.1, skeletons.2.2.2.2.2.2.2.2.2.1, search_locked.1⟩
+  ⟨skeletons.1, skeletons.2.1, skeletons.2.2.2.2.2.2.2.1, skeletons.2.2.2.2.2.2.2.2.1, skeletons.2.2.2.2.2.2.2.2.2.2.1, search_locked.1⟩
 
 /-- no method stores into an object fetched from the data base (the in-memory back-end hands out the stored objects
 themselves): a record changes only through an `update` block under the database lock, and an object already returned
@@ -250,6 +254,7 @@ theorem registration_only_by_its_blocks (p : Bool) (f : LSt → LSt) (hf : Blk p
   | subRemove o sid => exact absurd (subRemove_prov o sid s ▸ rfl) hne
   | subRemoveReg o => exact absurd (subRemove_prov o _ s ▸ rfl) hne
   | lastChkReg o => simp [lastChkSection] at hne
+  | subStored o => simp [subStored] at hne
   | setResp o g => simp [setResp] at hne
   | gcPick o => unfold gcPick at hne; split at hne <;> simp at hne
   | subPick o => unfold subPick at hne; split at hne <;> simp at hne
